@@ -98,9 +98,45 @@ SCHEMA = {
 }
 
 
+# RP66 V1 appendix B (representation codes: number and, for the fixed-size ones, the big-endian layout) and appendix A (record types)
+REPRESENTATION_CODES = {
+    'FSHORT': (1, '>h'), 'FSINGL': (2, '>f'), 'FSING1': (3, '>ff'), 'FSING2': (4, '>fff'), 'ISINGL': (5, '>i'), 'VSINGL': (6, '>i'),
+    'FDOUBL': (7, '>d'), 'FDOUB1': (8, '>dd'), 'FDOUB2': (9, '>ddd'), 'CSINGL': (10, '>ff'), 'CDOUBL': (11, '>dd'),
+    'SSHORT': (12, '>b'), 'SNORM': (13, '>h'), 'SLONG': (14, '>i'), 'USHORT': (15, '>B'), 'UNORM': (16, '>H'), 'ULONG': (17, '>I'),
+    'UVARI': (18, None), 'IDENT': (19, None), 'ASCII': (20, None), 'DTIME': (21, '>BBBBBBH'), 'ORIGIN': (22, None), 'OBNAME': (23, None),
+    'OBJREF': (24, None), 'ATTREF': (25, None), 'STATUS': (26, '>B')}
+EFLR_TYPES = {'FHLR': 0, 'OLR': 1, 'AXIS': 2, 'CHANNL': 3, 'FRAME': 4, 'STATIC': 5, 'SCRIPT': 6, 'UPDATE': 7, 'UDI': 8, 'LNAME': 9, 'SPEC': 10, 'DICT': 11}
+IFLR_TYPES = {'FDATA': 0, 'NOFORM': 1, 'NOFMT': 1, 'EOD': 127}      # NOFMT: the library's name for NOFORM
+
+
+def compare_enums(enums):
+    diffs = []
+    rc = enums.get('RepresentationCode', {})
+    for name, (num, fmt) in REPRESENTATION_CODES.items():
+        if name not in rc:
+            diffs.append(f'RepresentationCode.{name}: missing')
+        else:
+            if rc[name][0] != num:
+                diffs.append(f'RepresentationCode.{name}: code {rc[name][0]} instead of {num}')
+            if fmt is not None and rc[name][1] != fmt:
+                diffs.append(f'RepresentationCode.{name}: layout {rc[name][1]} instead of {fmt}')
+    for name in rc:
+        if name not in REPRESENTATION_CODES and name != 'UNITS':
+            diffs.append(f'RepresentationCode.{name}: not a code of RP66 V1')
+    for en, table in (('EFLRType', EFLR_TYPES), ('IFLRType', IFLR_TYPES)):
+        got = enums.get(en, {})
+        for name, val in got.items():
+            if name in table and val[0] != table[name]:
+                diffs.append(f'{en}.{name}: {val[0]} instead of {table[name]}')
+            if name not in table:
+                diffs.append(f'{en}.{name}: not a record type of RP66 V1')
+    return diffs
+
+
 def compare(dumped):
     """differences between the schema the library builds (spec/dump_schema.py) and the table above, as a list of texts"""
     diffs = []
+    dumped = {k: v for k, v in dumped.items() if not k.startswith('__')}
     for st in sorted(set(SCHEMA) | set(dumped)):
         if st not in dumped:
             diffs.append(f'{st}: set type of the standard not provided by the library')
